@@ -12,7 +12,10 @@ From TucModel Require Import Base.Bytes Base.ListX Model.Bounds Spec.Resolve Pro
   Tie.Gen_complement_std_range Tie.Bridge_complement_std_range
   Tie.Gen_ub_new Tie.Bridge_ub_new Tie.Gen_ub_from_range Tie.Bridge_ub_from_range
   Tie.Gen_ub_unpack Tie.Bridge_ub_unpack Tie.Gen_ub_complement Tie.Bridge_ub_complement
-  Proofs.C13.
+  Tie.Gen_ubl_bounds_only Tie.Bridge_ubl_bounds_only Tie.Gen_ubl_is_sortable Tie.Bridge_ubl_is_sortable
+  Tie.Gen_ubl_is_sorted Tie.Bridge_ubl_is_sorted Tie.Gen_ubl_has_negative_indices Tie.Bridge_ubl_has_negative_indices
+  Tie.Gen_ubl_is_forward_only Tie.Bridge_ubl_is_forward_only
+  Proofs.C13 Proofs.C06 Proofs.C03Full.
 Import ListNotations.
 Local Open Scope Z_scope.
 
@@ -107,7 +110,26 @@ Proof.
   rewrite (complement_std_range_spec n s e Hlt). reflexivity.
 Qed.
 
+(** C03 / C05 / C19 (what decides between the one-line-at-a-time reader and whole-input buffering, and
+    whether -M accepts a request): the translated [is_forward_only] never panics, and when it says yes
+    every index of every bound is positive (or the side is open). *)
+Theorem tie_forward_only_spec : forall u : ublist,
+  (exists b, gen_ubl_is_forward_only u = Ret b)
+  /\ (gen_ubl_is_forward_only u = Ret true -> Forall item_nz (items u) ->
+      Forall (fun b => pos_side (bl b) /\ pos_side (br b)) (bounds_only (items u))).
+Proof.
+  intros u. rewrite tie_ubl_is_forward_only. split; [eexists; reflexivity|].
+  intros H Hnz. apply forward_positive; [congruence | exact Hnz].
+Qed.
+
+(** C02 (the early stop is offered only when the list is sortable): the translated [is_sortable]
+    never panics and says yes exactly when the bounds do not mix positive and non-positive indexes. *)
+Theorem tie_sortable_spec : forall u : ublist, gen_ubl_is_sortable u = Ret (is_sortable (items u)).
+Proof. exact tie_ubl_is_sortable. Qed.
+
 Print Assumptions tie_try_into_range_spec.
+Print Assumptions tie_forward_only_spec.
+Print Assumptions tie_sortable_spec.
 Print Assumptions tie_unpack_spec.
 Print Assumptions tie_C15_complement_of_a_bound.
 Print Assumptions tie_C09_range_unchanged.
